@@ -60,6 +60,8 @@ func dispatch(kind string, args []*Sexp) (out *Sexp) {
 		return runOptProg(args)
 	}
 	switch kind {
+	case "evalfailstate":
+		return runEvalFailState(args)
 	case "poolabort":
 		return runPoolAbort(args)
 	case "lexenum":
